@@ -4,10 +4,10 @@ PLAN = dict(
         coq_targets=["Props/C08.vo"],
         steps=[
             # model of axcut2rv64 = the crate: instruction lists, printed routine text, capacity/print panics
-            step("rv-correspondence", "codegen-all", "codegen-rv", 300, 24000),
+            step("rv-correspondence", "codegen-all", "codegen-rv", 300, 8000, args=["--rv-only"]),
             # executable form of C08 on the crate's output: RV code on the ISA model vs the AxCut linear
             # machine, and vs the x86-64 code of the same program on the x86-64 ISA model
-            step("rv-semantics-and-backend-agreement", "codegen-all", "sem-rv", 300, 24000),
+            step("rv-semantics-and-backend-agreement", "codegen-all", "sem-rv", 300, 3200),
         ],
         rule="inputs: every .sc program of /repo/examples, /repo/testsuite and corpus/fun (rv_*.sc are print-free: all five operators, "
              "all twelve comparison forms, lists, closures with 1-3 destructors, constructors with up to 7 fields, sharing/erasing) through "
